@@ -435,6 +435,15 @@ pub const F32_LATTICE: &[(&str, u32)] = &[
     ("qnan", 0x7FC0_0000),
     ("snan", 0x7FA0_0001),
     ("neg-qnan", 0xFFC0_1234),
+    // "interesting finite" values: angles that are exact multiples, halves, values one ulp around 1
+    ("pi", 0x4049_0FDB),
+    ("neg-pi", 0xC049_0FDB),
+    ("half-pi", 0x3FC9_0FDB),
+    ("tau", 0x40C9_0FDB),
+    ("half", 0x3F00_0000),
+    ("one-plus-ulp", 0x3F80_0001),
+    ("one-minus-ulp", 0x3F7F_FFFF),
+    ("epsilon", 0x3400_0000),
 ];
 pub const F64_LATTICE: &[(&str, u64)] = &[
     ("zero", 0x0000_0000_0000_0000),
@@ -455,8 +464,16 @@ pub const F64_LATTICE: &[(&str, u64)] = &[
     ("qnan", 0x7FF8_0000_0000_0000),
     ("snan", 0x7FF4_0000_0000_0001),
     ("neg-qnan", 0xFFF8_0000_0000_1234),
+    ("pi", 0x4009_21FB_5444_2D18),
+    ("neg-pi", 0xC009_21FB_5444_2D18),
+    ("half-pi", 0x3FF9_21FB_5444_2D18),
+    ("tau", 0x4019_21FB_5444_2D18),
+    ("half", 0x3FE0_0000_0000_0000),
+    ("one-plus-ulp", 0x3FF0_0000_0000_0001),
+    ("one-minus-ulp", 0x3FEF_FFFF_FFFF_FFFF),
+    ("epsilon", 0x3CB0_0000_0000_0000),
 ];
-pub const NUM_F_LATTICE: usize = 18;
+pub const NUM_F_LATTICE: usize = 26;
 
 /// How a scalar is drawn.
 #[derive(Clone, Copy, Debug, PartialEq, Eq)]
